@@ -430,7 +430,10 @@ class _InstallWrapper(IpcCommand):
                 try:
                     sstat = os.stat(source)
                 except OSError as e:
-                    raise IpcCommandError(f"cannot stat {source!r}: {e.strerror}")
+                    if not os.path.islink(source):
+                        raise IpcCommandError(f"cannot stat {source!r}: {e.strerror}")
+                    # dangling symlink, installed as is
+                    sstat = os.lstat(source)
 
                 self._is_install_allowed(source, sstat, dest)
 
